@@ -4,6 +4,7 @@ import c11lib as L
 NAME = "akari"
 MODULE = "cspuz.puzzle.akari"
 FUNC = "solve_akari"
+TIER1 = ("Akari", "solve_akari_model")
 VALUES = [-2, -1, 0, 1, 2, 3, 4]
 
 
@@ -40,3 +41,22 @@ def tier2(tier, rng):
     for (h, w) in [(2, 2), (2, 3), (3, 3)]:
         for g in [L.random_grid(rng, h, w, VALUES, 0.65) for _ in range(30 if th else 6)]:
             yield {"h": h, "w": w, "grid": g}
+
+
+def tier1_problems(tier, rng):
+    """program-capture tie: every grid of the tiniest boards, random grids (mostly white, with long runs) on
+    small, non-square and larger boards, all-white and all-black boards"""
+    th = tier == "thorough"
+    for (h, w) in [(1, 1), (1, 2), (2, 1)]:
+        for g in L.all_grids(h, w, VALUES):
+            yield {"h": h, "w": w, "grid": g}
+    for (h, w) in [(1, 3), (3, 1), (2, 2)]:
+        for g in L.sample(rng, L.all_grids(h, w, VALUES), 200 if th else 25):
+            yield {"h": h, "w": w, "grid": g}
+    for (h, w) in [(2, 3), (3, 2), (3, 3), (2, 5), (5, 2), (4, 4), (3, 6), (6, 5), (1, 7), (7, 1), (8, 8)]:
+        for p in ([0.5, 0.7, 0.85, 0.85] * (3 if th else 1)):
+            yield {"h": h, "w": w, "grid": L.random_grid(rng, h, w, VALUES, p)}
+        yield {"h": h, "w": w, "grid": [[-2] * w for _ in range(h)]}
+        yield {"h": h, "w": w, "grid": [[rng.choice(VALUES[1:]) for _ in range(w)] for _ in range(h)]}
+    for (h, w) in [(0, 0), (0, 2), (2, 0)]:
+        yield {"h": h, "w": w, "grid": [[] for _ in range(h)]}
